@@ -107,7 +107,7 @@ func Materialise(t TypeSpec, v ValueSpec, dst reflect.Value) {
 		for i := range v.Keys {
 			e := reflect.New(dst.Type().Elem()).Elem()
 			Materialise(*t.Elem, v.Elems[i], e)
-			m.SetMapIndex(reflect.ValueOf(string(v.Keys[i])), e)
+			m.SetMapIndex(reflect.ValueOf(string(v.Keys[i])).Convert(dst.Type().Key()), e)
 		}
 		dst.Set(m)
 	case "struct":
